@@ -121,6 +121,8 @@ pub struct Written {
     /// offset of the '%PDF-' header (junk before it)
     pub header_offset: usize,
     pub startxrefs: Vec<usize>,
+    /// object numbers of the object streams, in file order
+    pub objstm_ids: Vec<u32>,
 }
 
 pub struct RefWriter<'a> {
@@ -709,6 +711,7 @@ impl<'a> RefWriter<'a> {
                         let sid = next_free_num;
                         next_free_num += 1;
                         w.container_ids.insert(sid);
+                        w.objstm_ids.push(sid);
                         // body of the object stream
                         let mut bodies: Vec<Vec<u8>> = vec![];
                         for n in &nums {
